@@ -256,3 +256,111 @@ fn c20_keep_alive_tick_counter_1() {
 fn c20_keep_alive_tick_counter_2_closes() {
     keep_alive_tick(2);
 }
+
+// ---------------------------------------------------------------------------------------------
+// handle_frame along the paths that do not await anything (concrete frame kind): the
+// keep-alive bookkeeping and the early rejections.
+
+fn frame_step(kind: u8) {
+    let mut rig = mk_rig(4, None);
+    let before: u32 = kani::any();
+    kani::assume(before <= KEEP_ALIVE_LIMIT);
+    rig.h.peer_state.keep_alive = before;
+    let frame = match kind {
+        0 => Some(Frame::KeepAlive(KeepAlive::new())),
+        1 => Some(Frame::Cancel(Cancel::new(kani::any::<u32>() as usize, kani::any::<u32>() as usize, kani::any::<u32>() as usize))),
+        2 => {
+            // Have naming a piece the torrent does not have
+            let i: u32 = kani::any();
+            kani::assume(i >= 4);
+            Some(Frame::Have(Have::new(i as usize)))
+        }
+        3 => {
+            // Handshake of another torrent
+            let mut other = [9u8; HASH_SIZE];
+            let k: usize = kani::any();
+            kani::assume(k < 3);
+            other[k] = kani::any();
+            kani::assume(other[k] != 9);
+            Some(Frame::Handshake(Handshake::new(&other, &kani::any())))
+        }
+        _ => None,
+    };
+    let res = run_ready(rig.h.handle_frame(frame)).expect("never blocks");
+    match kind {
+        0 => {
+            assert!(matches!(res, Ok(true)));
+            assert!(rig.h.peer_state.keep_alive == before, "a keep-alive does not count as activity");
+        }
+        1 => {
+            assert!(matches!(res, Ok(true)));
+            assert!(rig.h.peer_state.keep_alive == 0, "any other message resets the silence counter");
+        }
+        2 => {
+            assert!(res.is_err(), "an announcement for a piece index outside the torrent ends the connection");
+            assert!(rig.h.peer_state.keep_alive == 0);
+            assert!(rig.peer_rx.queued() == 0, "and never reaches the manager");
+        }
+        3 => {
+            assert!(res.is_err(), "a handshake naming a different info-hash ends the connection");
+            assert!(rig.sock.sink_len() == 0, "nothing is sent after it");
+            assert!(rig.peer_rx.queued() == 0, "and the manager is not asked to serve the peer");
+        }
+        _ => assert!(res.is_err(), "end of stream ends the connection task"),
+    }
+    kani::cover!(before == KEEP_ALIVE_LIMIT, "counter at the limit before the frame");
+    std::mem::forget(res);
+    std::mem::forget(rig);
+}
+
+// @prop C20
+// @fn PeerHandler::handle_frame (KeepAlive path)
+// @bound every counter value 0..=2
+// @desc a keep-alive from the peer leaves the silence counter unchanged: only-keep-alive traffic does not keep a connection alive
+#[kani::proof]
+#[kani::unwind(6)]
+fn c20_frame_keep_alive_is_not_activity() {
+    frame_step(0);
+}
+
+// @prop C20
+// @fn PeerHandler::handle_frame (Cancel path)
+// @bound every counter value 0..=2, every Cancel (index, begin, length) in u32^3
+// @outside the other nine message kinds (their handlers await the manager: nested coroutines, DESIGN 3.8)
+// @desc a Cancel (the one non-keep-alive message whose handling awaits nothing) resets the silence counter, so a connection delivering it every interval is never closed for inactivity
+#[kani::proof]
+#[kani::unwind(6)]
+fn c20_frame_cancel_resets_silence_counter() {
+    frame_step(1);
+}
+
+// @prop C12 C06
+// @fn PeerHandler::handle_frame, PeerHandler::handle_have, Have::validate
+// @bound every Have index >= pieces_num (4) in u32
+// @desc an out-of-range Have ends the connection before the manager sees it (so the manager never indexes past its piece table)
+#[kani::proof]
+#[kani::unwind(6)]
+fn c12_frame_have_out_of_range_rejected() {
+    frame_step(2);
+}
+
+// @prop C08
+// @fn PeerHandler::handle_frame, PeerHandler::handle_handshake, Handshake::validate
+// @bound handshakes whose info-hash differs from ours in one of the first three bytes (any value), every peer id, incoming connection (no expected id)
+// @outside hashes differing only in later bytes (all 20 positions are covered by c08_handshake_validate_spec); the valid-handshake path (awaits the manager)
+// @desc a handshake naming a different torrent is an error for the connection task: nothing is written to the socket and no command reaches the manager
+#[kani::proof]
+#[kani::unwind(6)]
+fn c08_frame_foreign_handshake_closes_silently() {
+    frame_step(3);
+}
+
+// @prop C06 C20
+// @fn PeerHandler::handle_frame (None)
+// @bound the end-of-stream marker
+// @desc when the peer closes the stream the connection task ends with an error (ConnectionClosed) instead of lingering
+#[kani::proof]
+#[kani::unwind(6)]
+fn c06_frame_end_of_stream_ends_task() {
+    frame_step(4);
+}
